@@ -14,6 +14,7 @@
 package frugal
 
 import (
+	"bytes"
 	"encoding/binary"
 	"errors"
 	"fmt"
@@ -319,8 +320,10 @@ func (v *v0ProtocolMarshaler) unmarshalHeaders(reader io.Reader) (map[string]str
 		return nil, thrift.NewTProtocolExceptionWithType(thrift.INVALID_DATA,
 			fmt.Errorf("frugal: invalid v0 headers size %d", size))
 	}
-	buff = make([]byte, size)
-	if _, err := io.ReadFull(reader, buff); err != nil {
+	// Grow the buffer as data arrives rather than trusting the announced size:
+	// a peer must not be able to make us allocate 2GiB with a 5 byte message.
+	var headerBuff bytes.Buffer
+	if _, err := io.CopyN(&headerBuff, reader, int64(size)); err != nil {
 		if e, ok := err.(thrift.TTransportException); ok && e.TypeId() == TRANSPORT_EXCEPTION_END_OF_FILE {
 			return nil, err
 		}
@@ -328,7 +331,7 @@ func (v *v0ProtocolMarshaler) unmarshalHeaders(reader io.Reader) (map[string]str
 			fmt.Sprintf("frugal: error reading protocol headers in unmarshalHeaders reading headers: %s", err))
 	}
 
-	return v.readPairs(buff, 0, size)
+	return v.readPairs(headerBuff.Bytes(), 0, size)
 }
 
 // unmarshalHeadersFromFrame reads serialized headers from the byte slice into
